@@ -61,9 +61,27 @@ func newDeps(w *world) *nativeDeps {
 		s := subject{isSet: rw.isSet, sid: rw.sid, sobj: rw.sobj, srel: rw.srel}
 		ts = append(ts, w.tuple(rw.obj, rw.rel, s))
 	}
-	// one by one: keeps insertion (shard id) order random as in production
-	for _, t := range ts {
-		must(reg.RelationTupleManager().WriteRelationTuples(ctx, t))
+	// Storage order is the order of the random shard ids. The symbolic store is
+	// ordered by row slot, so insert until the real order equals the slot order
+	// (K! equally likely orders; 400 attempts).
+	mgr := reg.RelationTupleManager()
+	for attempt := 0; attempt < 400; attempt++ {
+		for _, t := range ts {
+			must(mgr.WriteRelationTuples(ctx, t))
+		}
+		got, _, err := mgr.GetRelationTuples(ctx, &relationtuple.RelationQuery{})
+		must(err)
+		same := len(got) == len(ts)
+		for i := 0; same && i < len(ts); i++ {
+			same = got[i].String() == ts[i].String()
+		}
+		if same {
+			break
+		}
+		must(mgr.DeleteAllRelationTuples(ctx, &relationtuple.RelationQuery{}))
+		if attempt == 399 {
+			panic("native replay: could not reproduce the storage order of the counterexample")
+		}
 	}
 	return &nativeDeps{reg}
 }
